@@ -3,9 +3,11 @@ package main
 import (
 	"bytes"
 	"reflect"
+	"strconv"
 	"strings"
 
 	"github.com/hattya/go.sh/ast"
+	"github.com/hattya/go.sh/parser"
 	"github.com/hattya/go.sh/printer"
 )
 
@@ -73,4 +75,28 @@ func heredocH(line string) string {
 		out = append(out, hx(r.Op)+"|"+hx(printWord(r.Heredoc))+"|"+hx(printWord(r.Delim))+"|"+x)
 	}
 	return "ok " + strings.Join(out, ";")
+}
+
+func init() { handlers["hdoc"] = hdocH }
+
+// case: dash (0|1) \t delimiter (hex) \t text after the command line (hex)
+// out : ok <hex body> <hex delimiter line> <unread bytes> | err
+func hdocH(line string) string {
+	f := strings.Split(line, "\t")
+	op := "<<"
+	if f[0] == "1" {
+		op = "<<-"
+	}
+	src := "cat " + op + "'" + unhex(f[1]) + "'\n" + unhex(f[2])
+	rs := &runeScanner{s: src, prev: -1, failAt: -1}
+	cmds, _, err := parser.ParseCommands(nil, "t", rs)
+	if err != nil {
+		return "err"
+	}
+	var rsd []*ast.Redir
+	collectRedirs(reflect.ValueOf(cmds), &rsd, 0)
+	if len(rsd) != 1 {
+		return "shape"
+	}
+	return "ok " + hx(printWord(rsd[0].Heredoc)) + " " + hx(printWord(rsd[0].Delim)) + " " + strconv.Itoa(len(src)-rs.off)
 }
